@@ -180,6 +180,34 @@ pub fn replay_kept(case: &Value, _run: &Run) -> Acc {
     acc
 }
 
+/// number literals in every spelling as the first argument of in / nin, against lists that hold the same number in the
+/// same representation (float literal vs float element, integer literal vs integer element) or other numbers; cells
+/// in which an element equals the literal mathematically but not in representation are left out (see assumptions)
+fn literal_spellings_part() -> Acc {
+    let lits: Vec<(&str, Value)> = vec![
+        ("1e2", json!(100.0)), ("1E2", json!(100.0)), ("1e+2", json!(100.0)), ("1.0e2", json!(100.0)), ("100.0", json!(100.0)), ("10e1", json!(100.0)), ("1e0", json!(1.0)), ("-5e1", json!(-50.0)),
+        ("1.5", json!(1.5)), ("15e-1", json!(1.5)), ("100", json!(100)), ("1", json!(1)), ("-50", json!(-50)), ("0", json!(0)), ("0.0", json!(0.0)), ("2e3", json!(2000.0)),
+    ];
+    let lists: Vec<Value> = vec![json!([100.0]), json!([7.5, 100.0]), json!([1.0]), json!([-50.0, 2.5]), json!([1.5]), json!([100]), json!([1, -50]), json!([]), json!([7.5]), json!([2000.0, 0.5]), json!([0.0]), json!([0]), json!(["100", "1e2"])];
+    let mut acc = Acc::new();
+    for (lit, val) in &lits {
+        let same_math = |e: &Value| match (e.as_f64(), val.as_f64()) {
+            (Some(a), Some(b)) => a == b,
+            _ => false,
+        };
+        // cells: one list per child; keep only the lists without a representation-only difference
+        let cells: Vec<Option<Value>> = lists.iter().filter(|l| l.as_array().unwrap().iter().all(|e| !same_math(e) || e == val)).cloned().map(Some).collect();
+        for f in ["in", "nin"] {
+            let expect: Vec<bool> = cells.iter().map(|l| oracle(f, &Some(val.clone()), l)).collect();
+            let doc = cell_doc(&None, &cells, false);
+            for q in [format!("$.elems[?{}({},@.x)]", f, lit), format!("$.elems[?{}( {} , @['x'] )]", f, lit)] {
+                judge(&mut acc, &q, &doc, &expect, "number literal spellings as the first argument", &|i| format!("{}({}, {}) must be {}", f, lit, cells[i].clone().unwrap(), expect[i]));
+            }
+        }
+    }
+    acc
+}
+
 /// both arguments taken from the document so that they can be one and the same node: `f(@.x, @.x)`, `f(@, @)`, and
 /// `f(@.x, $.elems[k].x)` for every k (the arguments alias exactly when the child under test is child k)
 fn aliased_part(thorough: bool) -> Acc {
@@ -298,7 +326,7 @@ pub fn run(tier: &str) -> i32 {
         }
         acc
     };
-    let acc = acc.merge(long_acc).merge(aliased_part(th));
+    let acc = acc.merge(long_acc).merge(aliased_part(th)).merge(literal_spellings_part());
     run.finish(
         acc,
         "one case = one (function, first argument, second argument, argument form); all first arguments are packed into one document per second argument; aliased arguments: both arguments from the document, as one node (`f(@.x,@.x)`, `f(@,@)`) and through an absolute path to a member of child k for every k; oracle = set membership as the property states it (false for a missing or non-array argument); non-trivial = the test is true",
